@@ -45,4 +45,4 @@ def run(tier, seed):
         assumptions=['reference calendar model h/ref.h (validated against Python datetime for every day)',
                      'enum-typed bit-fields rewritten to unsigned int in the goto-cc copy (layout probe identical)',
                      'JDN float text (%.6f) outside the claim'],
-        stubs=[])
+        stubs=[], pre=core.ref_selftest)
